@@ -55,6 +55,11 @@ fn main() {
             exprrows::replay_rows(&text, &mut rep);
             std::fs::write(&args[3], serde_json::to_string(&rep.to_json()).unwrap()).unwrap();
         }
+        // vh for-steps <seed> <n> <report.json>
+        "for-steps" => {
+            exprrec::for_steps(args[2].parse().unwrap(), args[3].parse().unwrap(), &mut rep);
+            std::fs::write(&args[4], serde_json::to_string(&rep.to_json()).unwrap()).unwrap();
+        }
         // vh expr-literals <seed> <n> <report.json>
         "expr-literals" => {
             exprrec::literals(args[2].parse().unwrap(), args[3].parse().unwrap(), &mut rep);
